@@ -73,14 +73,19 @@ def write_cfg(path, consts, init="MCInit", next_="NextP", invariants=(), view="V
     with open(tla, "w") as f:
         f.write("---- MODULE %s ----\nEXTENDS MC\n" % mod)
         f.write("c_KnownSigs == %s\n" % tla_value(set(known)))
+        f.write("c_TrackHist == %s\n" % ("FALSE" if init is None else "TRUE"))
         for k, v in consts.items():
             f.write("c_%s == %s\n" % (k, tla_value(v)))
         f.write("====\n")
     with open(path, "w") as f:
-        f.write("CONSTANTS\n  ScenTab <- MCScenTab\n  KnownSigs <- c_KnownSigs\n")
+        f.write("CONSTANTS\n  ScenTab <- MCScenTab\n  KnownSigs <- c_KnownSigs\n  TrackHist <- c_TrackHist\n")
         for k in consts:
             f.write("  %s <- c_%s\n" % (k, k))
-        f.write("INIT %s\nNEXT %s\n" % (init, next_))
+        if init is None:      # liveness: SPECIFICATION with fairness, no VIEW
+            f.write("SPECIFICATION LiveSpec\nPROPERTY Terminates\n")
+            view = None
+        else:
+            f.write("INIT %s\nNEXT %s\n" % (init, next_))
         if view:
             f.write("VIEW %s\n" % view)
         for inv in invariants:
@@ -321,6 +326,18 @@ def load_known():
     if not os.path.exists(p):
         return []
     return json.load(open(p))
+
+
+def liveness_check(consts, outdir, tag, workers=8, timeout=2400):
+    """C01 as a liveness property of the model (weak fairness, family without retrying collections)."""
+    os.makedirs(outdir, exist_ok=True)
+    cfg = os.path.join(outdir, "live-%s.cfg" % tag)
+    root = write_cfg(cfg, dict(consts, PartK=0, PartN=1), init=None, invariants=())
+    rc, out = run_tlc(root, cfg, outdir, "live-" + tag, workers=workers, xmx="12g", timeout=timeout, cwd=outdir)
+    txt = open(out, errors="replace").read()
+    m = STAT_RE.search(txt)
+    ok = rc == 0 and "No error has been found" in txt
+    return dict(ok=ok, states=int(m.group(2)) if m else 0, transitions=int(m.group(1)) if m else 0, out=out)
 
 
 def known_mc_sigs():
